@@ -168,3 +168,43 @@ Theorem C07_real_key_adequate_nonvacuous :
   /\ clean ex_live ex_a1 /\ clean ex_live ex_a2 /\ clean ex_live ex_a3 /\ clean ex_live ex_a4.
 Proof. exact real_key_adequate_nonvacuous. Qed.
 Print Assumptions C07_real_key_adequate_nonvacuous.
+
+(* ---- histories: several conversions in one process, callees mutated in between.
+        The key as the code builds it is a function of the CURRENT site, so every conversion of every
+        history is sound under the per-conversion assumptions ... *)
+Theorem C07_current_key_sound_along_histories :
+  forall (HT FPT D : Type) (hash : list nat -> HT) (fp : nat -> FPT)
+         (HT_eq_dec : forall a b : HT, {a = b} + {a <> b}) (FPT_eq_dec : forall a b : FPT, {a = b} + {a <> b})
+         (denote : nat -> nat -> cstate -> list aval -> list (nat * param) -> D),
+  (forall b1 b2, hash b1 = hash b2 -> b1 = b2) ->
+  (forall a b, fp a = fp b -> a = b) ->
+  (forall c1 c2, rsem D denote c1 = rsem D denote c2 -> s_nout c1 = s_nout c2) ->
+  forall history : list (list (rsite * option nat)), Forall conversion_ok history ->
+  Forall (fun sites => forall c, In c (st_calls _ _ _ (convert_current HT FPT D hash fp HT_eq_dec FPT_eq_dec denote sites)) ->
+            d_sem _ _ (c_def _ _ _ c) = rsem D denote (c_site _ _ _ c) /\
+            c_nin _ _ _ c = d_nin _ _ (c_def _ _ _ c) /\ c_nout _ _ _ c = d_nout _ _ (c_def _ _ _ c)) history.
+Proof. exact current_key_sound_along_histories. Qed.
+Print Assumptions C07_current_key_sound_along_histories.
+
+(* ... whereas a key computed from a state remembered per instance (id(instance) -> fingerprint at first
+   sight) breaks adequacy along a history although every single conversion satisfies the assumptions:
+   identical instances, export, one updated in place, export: the updated instance's call node names
+   the other one's definition *)
+Theorem C07_stale_key_breaks_adequacy :
+  exists history st c,
+    Forall conversion_ok history /\
+    nth_error (run_history_stale (list nat) nat _ (fun b => b) (fun s => s) (list_eq_dec Nat.eq_dec) Nat.eq_dec h_denote [] history) 1 = Some st /\
+    In c (st_calls _ _ _ st) /\
+    d_sem _ _ (c_def _ _ _ c) <> rsem _ h_denote (c_site _ _ _ c).
+Proof. exact stale_key_breaks_adequacy. Qed.
+Print Assumptions C07_stale_key_breaks_adequacy.
+
+(* a remembered fingerprint is harmless within a single conversion from a cold cache (callees not mutated
+   during it): there the cached key IS the current-state key — which is why one export alone never shows it *)
+Theorem C07_stale_key_first_conversion :
+  forall (HT FPT : Type) (hash : list nat -> HT) (fp : nat -> FPT) (sites : list (rsite * option nat)),
+  (forall c1 c2, In c1 (map fst sites) -> In c2 (map fst sites) -> s_obj c1 = s_obj c2 -> s_state c1 = s_state c2) ->
+  forall c, In c (map fst sites) ->
+    stale_key HT FPT hash fp (cache_extend [] sites) c = real_key HT FPT hash fp c.
+Proof. exact stale_key_first_conversion. Qed.
+Print Assumptions C07_stale_key_first_conversion.
